@@ -30,7 +30,7 @@ RULE = ("scenario = (shape, firing order / variant, result kind, N): chain shape
         "returning a fired / later-fired Deferred, inlineCallbacks generators and ensureDeferred coroutines "
         "over N pre-fired Deferreds (success / failure caught), generator with an unfired Deferred every "
         "1000th yield (the rest resolve synchronously inside the resumption), nested inlineCallbacks; N in "
-        "{1e3, 1e4} (+1e5 for two shapes) quick, 1e5 for all thorough.  A case is distinct by that tuple and "
+        "{1e3, 1e4} (+1e5 for seven shapes) quick, 1e5 for all thorough.  A case is distinct by that tuple and "
         "is non-trivial when N >= 1000 (longer than the recursion limit could hide).")
 ASSUMPTIONS = [
     "trusted base: CPython's own RecursionError check at the default limit 1000 and sys._getframe depth walking",
@@ -274,6 +274,11 @@ def scenarios(ctx):
             for n in sizes:
                 out.append(("gen", variant, kind, n, None))
     out.append(("gen", "generator", "s", 100000, None))
+    out.append(("chain", "outer-first", "f", 100000, None))
+    out.append(("chain", "outer-first", "s", 100000, "every7-after"))
+    out.append(("onedef", "fired", "s", 100000, None))
+    out.append(("gen", "coroutine", "f", 100000, None))
+    out.append(("gen", "nested", "s", 100000, None))
     seen, uniq = set(), []
     for s in out:
         if s not in seen:
